@@ -71,7 +71,7 @@ def run(tier, seed, replay=None):
         nontriv.add(C.case_hash(args))
         try:
             model = SplineModel(pd, cx['dim'])
-            model.add(cx['patches'], **(dict(raise_on_twins=False) if ring else {}))
+            model.add(cx['patches'], **(dict(raise_on_twins=False) if (ring and cx['kind'] == 'ring2') else {}))
             model.generate_cp_numbers()
             model.generate_cell_numbers()
         except Exception as e:  # noqa
@@ -175,12 +175,21 @@ def run(tier, seed, replay=None):
     # ---------------------------------------------------------------- faces of trilinear right-handed models, OpenFOAM order
     for it in range(reps):
         ref = rng.choice([0, 1, 1, 2])
-        cx = X.build(rng, 3, dim=3, order=2, refine=ref, right_handed=True)
+        ringf = rng.random() < 0.25
+        if it % 8 == 3:
+            # the smallest mesh: one cell, no internal face at all
+            ref = 0
+            cx = X.build(rng, 3, dim=3, order=2, refine=0, right_handed=True, cells=[(0, 0, 0)], kind='single')
+        elif ringf:
+            # closed rings: a volume adjacent to itself, two volumes sharing two interfaces, closed chains
+            cx = X.build_ring(rng, 3, order=2, refine=ref, right_handed=True)
+        else:
+            cx = X.build(rng, 3, dim=3, order=2, refine=ref, right_handed=True)
         args = describe(cx, refine=ref)
         nontriv.add(C.case_hash(args))
         try:
             model = SplineModel(3, 3, force_right_hand=True)
-            model.add(cx['patches'])
+            model.add(cx['patches'], **(dict(raise_on_twins=False) if cx['kind'] == 'ring2' else {}))
             for i_, node in enumerate(model.boundary()):
                 node.name = 'b%d' % (i_ % 3)
             model.generate_cp_numbers()
@@ -276,6 +285,9 @@ def run(tier, seed, replay=None):
             btxt = open(os.path.join(target, 'boundary')).read()
             import re
             blocks = re.findall(r'(\w+)\s*\{\s*type patch;\s*nFaces (\d+);\s*startFace (\d+);', btxt)
+            declared = int(btxt[btxt.index('}') + 1:].strip().split('\n')[0])
+            if declared != len(blocks) or len(blocks) != len(set(b_[0] for b_ in blocks)):
+                fail('openfoam', args, 'the boundary file declares %d patches and lists %d blocks (%d distinct names)' % (declared, len(blocks), len(set(b_[0] for b_ in blocks))))
             pos = nint
             for nm, nfa, st in blocks:
                 if int(st) != pos:
@@ -323,7 +335,80 @@ def run(tier, seed, replay=None):
             count('faces vs model')
         except Exception as e:  # noqa
             fail('faces', args, 'raised %s' % type(e).__name__)
+    # two structured patches glued along a face, the second one re-oriented (Model/Faces2.v): the complete (owner, neighbour)
+    # list of faces() in order, and the node lists of the owner's faces through its own cp_numbers
+    from splipy.splinemodel import Orientation as _Ori
+    glue_cases = []
+    for it in range(max(6, reps // 4)):
+        shA = tuple(rng.sample([rng.randint(1, 3), rng.randint(1, 3), rng.randint(2, 4)], 3))
+        dA, sideA = rng.randrange(3), rng.random() < 0.5
+        args = dict(shape=list(shA), face=[dA, sideA])
+        try:
+            def mk_(shape):
+                v_ = Volume()
+                for d_ in range(3):
+                    if shape[d_] > 1:
+                        v_.refine(shape[d_] - 1, direction=d_)
+                return v_
+            A_ = mk_(shA)
+            shBg = list(shA)
+            shBg[dA] = rng.randint(1, 2)
+            off_ = [0.0, 0.0, 0.0]
+            off_[dA] = 1.0 if sideA else -1.0
+            B_ = mk_(shBg)
+            B_ += off_
+            ops_ = []
+            for _ in range(rng.randint(0, 2)):
+                a_, b_ = rng.sample(range(3), 2)
+                B_.swap(a_, b_)
+                ops_.append(('swap', a_, b_))
+            for d_ in range(3):
+                if rng.random() < 0.5:
+                    B_.reverse(d_)
+                    ops_.append(('reverse', d_))
+            args['reorientation'] = ops_
+            m = SplineModel(3, 3, force_right_hand=False)
+            m.add([A_, B_])
+            m.generate_cp_numbers()
+            m.generate_cell_numbers()
+            nA, nB = m.catalogue.top_nodes()
+            bd = nA.lower_nodes[2][2 * dA + (1 if sideA else 0)]
+            if bd.owner is not nA or bd.nhigher != 2:
+                fail('faces', args, 'the glued face is not an interface owned by the first patch')
+                continue
+            nb_sec = section_from_index(3, 2, nB.lower_nodes[2].index(bd))
+            dB = [i_ for i_, s_ in enumerate(nb_sec) if s_ is not None][0]
+            sideB = nb_sec[dB] == -1
+            ori = _Ori.compute(bd.obj, nB.obj.section(*nb_sec))
+            fs = m.faces()
+            shB = tuple(int(x_) for x_ in np.asarray(nB.cell_numbers).shape)
+            startA, startB = int(np.asarray(nA.cell_numbers).flat[0]), int(np.asarray(nB.cell_numbers).flat[0])
+            nfA = sum(len(x_) for x_ in nA.faces())
+            glue_cases.append((args, (shA, startA, dA, sideA, shB, startB, dB, sideB, tuple(ori.perm) == (1, 0), bool(ori.flip[0]), bool(ori.flip[1])),
+                               fs, np.asarray(nA.cp_numbers), nfA))
+            count('two-patch faces vs model')
+        except Exception as e:  # noqa
+            fail('faces', args, 'two glued patches: raised %s' % type(e).__name__)
     corr_bad = C.Corr()
+    glines = ['model_faces %d %d %d %d %d %d %d %d %d %d %d %d %d %d %d' % (g_[0] + (g_[1], g_[2], int(g_[3])) + g_[4] + (g_[5], g_[6], int(g_[7]), int(g_[8]), int(g_[9]), int(g_[10])))
+              for (_, g_, _, _, _) in glue_cases]
+    gouts = C.run_model(glines) if glines else []
+    for tk, (args, g_, fs, cpnA, nfA) in zip(gouts, glue_cases):
+        conf = tk.int()
+        mf = tk.list(lambda: ([(tk.int(), tk.int(), tk.int()) for _ in range(4)], tk.int(), tk.int()))
+        if not conf:
+            corr_bad += {'what': 'L1: the model finds the two faces non-conforming, the implementation glued them', 'op': 'faces', 'args': args}
+        elif len(mf) != len(fs):
+            corr_bad += {'what': 'L1: two glued patches: %d faces, model %d' % (len(fs), len(mf)), 'op': 'faces', 'args': args}
+        else:
+            for fi, (nodes_, ow_, nb_) in enumerate(mf):
+                if int(fs['owner'][fi]) != ow_ or int(fs['neighbor'][fi]) != nb_:
+                    corr_bad += {'what': 'L1: two glued patches: face %d has owner %d neighbour %d, model owner %d neighbour %d'
+                                         % (fi, int(fs['owner'][fi]), int(fs['neighbor'][fi]), ow_, nb_), 'op': 'faces', 'args': args}
+                    break
+                if fi < nfA and [int(cpnA[ix]) for ix in nodes_] != [int(x_) for x_ in fs['nodes'][fi]]:
+                    corr_bad += {'what': 'L1: two glued patches: nodes of face %d differ from the model' % fi, 'op': 'faces', 'args': args}
+                    break
     flines = []
     for (args, start, sh, fs, cpn, shapes, cellnums, nc) in face_cases:
         flines.append('patch_faces %d %d %d %d' % ((start,) + sh))
